@@ -57,6 +57,26 @@ REGISTRY = {
     },
 }
 
+REGISTRY["C16"] = {
+    "engine": "engine_order",
+    "theorems": [(A + "OrderThm", "Api.sortByOrder_nodup"), (A + "OrderThm", "Api.sortByOrder_sub"), (A + "OrderThm", "Api.sortByOrder_perm"),
+                 (A + "OrderThm", "Api.C16_loses_counterexample")],
+    "model_is_spec": True,
+    "partial": "sortByOrder_perm (never loses a field) holds under `anchored`; finding KF17: dangling / cyclic after/before drop fields",
+    "assumptions": ["the Lean sortByOrder is the executable specification of the order; all four views call the same function on (name, ordering) lists, "
+                    "which the correspondence observes rather than proves"],
+}
+
+REGISTRY["C15"] = {
+    "engine": "engine_fieldsset",
+    "theorems": [(A + "FieldsSet", "Api.C15_deserialize"), (A + "FieldsSet", "Api.C15_setattr"), (A + "FieldsSet", "Api.C15_unset"),
+                 (A + "FieldsSet", "Api.C15_set"), (A + "FieldsSet", "Api.C15_replace")],
+    "model_is_spec": True,
+    "partial": "classes directly decorated with with_fields_set (inheritance to / from undecorated classes is not modelled); "
+               "exclude_unset serialization is checked against the machine on the real code, not proved",
+    "assumptions": ["the state machine abstracts an instance to the set of names in __fields_set__; constructor / __setattr__ wrapping is observed, not proved"],
+}
+
 LEVEL_NOTE = ("Trusted: Lean 4.33 kernel; axioms propext / Classical.choice / Quot.sound only (audited by #print axioms on every run, no sorry / "
               "native_decide / own axioms); the hand-written model, tied to /repo by the differential correspondence of this check (same cases to the "
               "real code and to the compiled Lean driver); tools/extract.py for the regenerated tables; CPython / typing / dataclasses. "
@@ -71,11 +91,17 @@ TEXT = {
     "C13": "Kernel-checked theorems: each of the three union methods returns the value of the first accepting alternative under explicit side conditions, and whatever union() selects accepts iff some alternative conforms; tied by running every alternative separately on the real code.",
     "C14": "Kernel-checked monotonicity of coercion (strictly accepted data stay accepted) on the union-free fragment incl. objects, for every word table and numeral oracle; the coercion model is tied to the real code case by case, exceptions included.",
 }
+TEXT["C16"] = ("Kernel-checked theorems on the model of sort_by_order (an instance of an abstract forest walk): the result never duplicates, is a sub-list of the "
+               "declared elements, and is a permutation of them whenever every after/before chain reaches an element with an order value; the model is the "
+               "executable specification and is compared with the key order of serialize, both schemas and the GraphQL type on generated classes.")
+TEXT["C15"] = ("Kernel-checked characterisation of every operation of the with_fields_set state machine (membership after deserialization / construction, "
+               "assignment, set_fields, unset_fields) over all classes, states and arguments; the machine is compared with the real fields_set after "
+               "every operation of generated sequences, and exclude_unset serialization is checked against it.")
 for k, v in TEXT.items():
     REGISTRY[k]["level_text"] = v
     REGISTRY[k]["level_note"] = LEVEL_NOTE
 
 # properties registered in MANIFEST.json (a property is claimed once its check is green on the unchanged tree)
-CLAIMED = ["C01", "C02", "C03", "C08", "C13", "C14"]
+CLAIMED = ["C01", "C02", "C03", "C08", "C13", "C14", "C15", "C16"]
 NOT_CLAIMED = {p: "check under construction in this session (model and theorems exist, engine being registered); not yet claimed"
-               for p in ["C04", "C05", "C06", "C07", "C09", "C10", "C11", "C12", "C15", "C16", "C17", "C18", "C19", "C20"]}
+               for p in ["C04", "C05", "C06", "C07", "C09", "C10", "C11", "C12", "C17", "C18", "C19", "C20"]}
